@@ -232,3 +232,71 @@ def uninstall_all():
                 pass
         else:
             setattr(m, name, old)
+
+
+# ---------------------------------------------------------------------------
+# math module: C functions that would call float() on a symbolic number
+# ---------------------------------------------------------------------------
+_math_done = []
+
+
+def install_math_shims():
+    """Wrap the math functions most likely to meet a cost so that they accept SymNum (others: loud TypeError)."""
+    import math
+    if _math_done:
+        return
+    _math_done.append(True)
+    orig = {n: getattr(math, n) for n in ("isclose", "fabs", "isinf", "isnan", "isfinite", "floor", "ceil", "fsum")}
+
+    def _any_sym(*xs):
+        return any(is_sym(x) for x in xs)
+
+    def isclose(a, b, *, rel_tol=1e-09, abs_tol=0.0):
+        if not _any_sym(a, b):
+            return orig["isclose"](a, b, rel_tol=rel_tol, abs_tol=abs_tol)
+        inf = float("inf")
+        for x, y in ((a, b), (b, a)):
+            if isinstance(x, float) and x in (inf, -inf):
+                return False
+        diff = abs(a - b)
+        bound = max(rel_tol * max(abs(a), abs(b)), abs_tol)
+        return diff <= bound
+
+    def fabs(x):
+        return abs(x) if is_sym(x) else orig["fabs"](x)
+
+    def isinf(x):
+        return False if is_sym(x) else orig["isinf"](x)
+
+    def isnan(x):
+        return False if is_sym(x) else orig["isnan"](x)
+
+    def isfinite(x):
+        return True if is_sym(x) else orig["isfinite"](x)
+
+    def floor(x):
+        if is_sym(x):
+            if x.is_int():
+                return x
+            raise TypeError("floor() of a symbolic real")
+        return orig["floor"](x)
+
+    def ceil(x):
+        if is_sym(x):
+            if x.is_int():
+                return x
+            raise TypeError("ceil() of a symbolic real")
+        return orig["ceil"](x)
+
+    def fsum(xs):
+        xs = list(xs)
+        if any(is_sym(x) for x in xs):
+            tot = 0
+            for x in xs:
+                tot = tot + x
+            return tot
+        return orig["fsum"](xs)
+
+    for n, f in (("isclose", isclose), ("fabs", fabs), ("isinf", isinf), ("isnan", isnan), ("isfinite", isfinite),
+                 ("floor", floor), ("ceil", ceil), ("fsum", fsum)):
+        setattr(math, n, f)
